@@ -13,6 +13,7 @@ EXTENDS GL, TLC, Json, IOUtils
 U       == 1..8
 StrSet  == 1..4
 NanObj  == 0
+NoneCode == 8
 ObsU    == U \cup {NanObj}
 
 Cases == JsonDeserialize(IOEnv.TRACE_FILE).cases
@@ -37,7 +38,7 @@ Valid(P, e) ==
     [] e.op = "update"     -> ValidUpdate(P, e.a[1], PairsToFn(e.a[2]))
     [] e.op = "remove"     -> ValidRemove(P, e.a[1])
     [] e.op = "pop"        -> ValidPop(P, e.a[1])
-    [] e.op = "sort"       -> TRUE
+    [] e.op = "sort"       -> NoneCode \notin GLLeaders(P)        \* None cannot be compared with numbers
     [] e.op = "sort_by"    -> ValidSortBy(P, e.a[1])
     [] e.op = "replace_group_leader" -> ValidReplaceLeader(P, e.a[1], e.a[2])
     [] OTHER -> FALSE
@@ -57,12 +58,15 @@ Expected(P, e) ==
     [] e.op = "replace_group_leader" -> GLReplaceLeader(P, e.a[1], e.a[2])
 
 (* observers, as logged: get / grp are sequences of <<arg, result>> over ObsU *)
+(* contains / get_group compare values "NaN-insensitively": the float nan object matches any missing value *)
+(* held by the list, i.e. None (code 8) in this universe; get() is a plain dict lookup                     *)
+Alias(v) == IF v = NanObj THEN NoneCode ELSE v
 ObsClauses(O, e) ==
   LET getf == PairsToFn(e.get)  grpf == PairsToFn(e.grp)  has == GLRng(e.has)  vals == e.vals
   IN  (IF \A v \in ObsU : getf[v] = GLGet(O, v) THEN {} ELSE {"C13_obs_get"})
- \cup (IF \A v \in ObsU : (GLHolders(O, v) = {} /\ grpf[v] = v) \/ grpf[v] \in GLHolders(O, v)
+ \cup (IF \A v \in ObsU : (GLHolders(O, Alias(v)) = {} /\ grpf[v] = v) \/ grpf[v] \in GLHolders(O, Alias(v))
           THEN {} ELSE {"C13_obs_get_group"})
- \cup (IF has = {v \in ObsU : GLContains(O, v)} THEN {} ELSE {"C13_obs_contains"})
+ \cup (IF has = {v \in ObsU : GLContains(O, Alias(v))} THEN {} ELSE {"C13_obs_contains"})
  \cup (IF GLRng(vals) = GLValues(O) /\ Len(vals) = Cardinality(GLValues(O)) THEN {} ELSE {"C13_obs_values"})
 
 Judge(P, e) ==
